@@ -131,7 +131,7 @@ class FakeFlows:
         torch.set_default_dtype(self._dtype)
 
 
-def make_model(dims, seed, cut=False, uprior=False, lcut=False):
+def make_model(dims, seed, cut=False, uprior=False, lcut=False, loffset=0.0):
     """2..3-d Gaussian likelihood, uniform prior on a box; with `cut` the prior is zero on part of the box
     (x0 + x1 > 2), i.e. log_prior = -inf inside the bounds — a legal constrained model; with `uprior` the prior is NOT
     flat: density 1 + 0.8 (u0 - 1/2) in the unit hypercube (log_prior_unit_hypercube overridden, as in nessai's
@@ -164,6 +164,8 @@ def make_model(dims, seed, cut=False, uprior=False, lcut=False):
             out = np.zeros(x.size)
             for n, m in zip(self.names, self.mu):
                 out = out - 0.5 * (x[n] - m) ** 2
+            if loffset:
+                out = out + loffset       # un-normalised likelihood: log Z far outside the float64 exp range
             if lcut:
                 # a hard truncation of the LIKELIHOOD (log L = -inf on part of the prior support): legal, and the stored
                 # value must be the model's -inf, not a finite stand-in (seeded change C03-d)
